@@ -9,6 +9,9 @@
 //!                beyond the list yield None at once = shared plan exhausted), "-" = empty
 //!       out    = S<tag> | N | E<error name>          (names as in coq/Model/Spec.v)
 //!       observation = <start times, comma>/<result>/<end time>   (ticks = milliseconds, hex)
+//!   P <idem> <metrics> <max:interval | -> <targets>   one call of run_request_no_side_effects over a
+//!       plan of probe targets <id>:<delay> (each attempt lasts delay ticks, then fails with a pool
+//!       error)    -> distinct observations  <b<id>@<t> / e<id>@<t> events, comma>/<result>/<end time>
 //!   The call is repeated REPEAT times because futures::select! breaks ties pseudo-randomly;
 //!   every distinct observation is printed and must be allowed by the model.
 use scylla::errors::{
@@ -18,6 +21,7 @@ use scylla::errors::{
     SerializationError, WriteType,
 };
 use scylla::policies::speculative_execution::SimpleSpeculativeExecutionPolicy;
+use scylla::client::verif_execution_speculative as xhooks;
 use scylla::policies::verif_speculative as hooks;
 use scylla::statement::Consistency;
 use std::cell::RefCell;
@@ -256,6 +260,49 @@ fn run_once(max: usize, interval: u64, fibers: &[(u64, FiberOut)]) -> String {
     r.unwrap_or_else(|_| "panic".into())
 }
 
+/// One call of the real `run_request_no_side_effects` over a plan of probe targets (no node behind
+/// them: every attempt waits `delay` ticks and fails with a pool error), paused clock.
+/// Observation: the begin/end events of the attempts in the order they happened, with times.
+fn run_probe_once(idem: bool, metrics: bool, policy: Option<(usize, u64)>, targets: &[(u32, u64)]) -> String {
+    let rt = tokio::runtime::Builder::new_current_thread().enable_time().start_paused(true).build().unwrap();
+    let targets: Vec<(u32, u64)> = targets.to_vec();
+    let r = catch(std::panic::AssertUnwindSafe(move || {
+        rt.block_on(async move {
+            let t0 = tokio::time::Instant::now();
+            let log: Arc<std::sync::Mutex<Vec<String>>> = Arc::new(std::sync::Mutex::new(vec![]));
+            let on_event: Arc<dyn Fn(u32, bool) + Send + Sync> = {
+                let log = log.clone();
+                Arc::new(move |id: u32, begin: bool| {
+                    let t = fmt_time(tokio::time::Instant::now() - t0);
+                    log.lock().unwrap().push(format!("{}{}@{}", if begin { "b" } else { "e" }, hex_u(id as u128), t));
+                })
+            };
+            let plan: Vec<xhooks::ProbeTarget> = targets
+                .iter()
+                .map(|&(id, d)| xhooks::ProbeTarget { id, delay: Duration::from_millis(d), on_event: on_event.clone() })
+                .collect();
+            let pol = policy.map(|(max, iv)| SimpleSpeculativeExecutionPolicy {
+                max_retry_count: max,
+                retry_interval: Duration::from_millis(iv),
+            });
+            let pol_ref: Option<&dyn scylla::policies::speculative_execution::SpeculativeExecutionPolicy> =
+                pol.as_ref().map(|p| p as _);
+            let call = PollLimit { inner: Box::pin(xhooks::run_probe_plan(idem, metrics, pol_ref, plan)), polls: 0 };
+            let res = tokio::time::timeout(Duration::from_secs(100_000), call).await;
+            let end = fmt_time(tokio::time::Instant::now() - t0);
+            let ev = log.lock().unwrap().join(",");
+            let ev = if ev.is_empty() { "-".to_string() } else { ev };
+            match res {
+                Err(_) => format!("{}/hang/{}", ev, end),
+                Ok(None) => format!("{}/spin/{}", ev, end),
+                Ok(Some(Ok(()))) => format!("{}/S0/{}", ev, end),
+                Ok(Some(Err(e))) => format!("{}/E{}/{}", ev, error_name(&e), end),
+            }
+        })
+    }));
+    r.unwrap_or_else(|_| "panic".into())
+}
+
 fn run_case(case: &str, repeat: usize) -> String {
     let f: Vec<&str> = case.split_whitespace().collect();
     match f.first().copied() {
@@ -295,6 +342,31 @@ fn run_case(case: &str, repeat: usize) -> String {
             let mut seen: Vec<String> = vec![];
             for _ in 0..repeat {
                 let o = run_once(max, interval, &fibers);
+                if !seen.contains(&o) {
+                    seen.push(o);
+                }
+            }
+            seen.join(" ")
+        }
+        Some("P") if f.len() == 5 => {
+            let idem = f[1] == "1";
+            let metrics = f[2] == "1";
+            let policy = if f[3] == "-" {
+                None
+            } else {
+                let (m, i) = f[3].split_once(':').unwrap();
+                Some((usize::from_str_radix(m, 16).unwrap(), u64::from_str_radix(i, 16).unwrap()))
+            };
+            let mut targets = vec![];
+            if f[4] != "-" {
+                for e in f[4].split(',') {
+                    let (id, d) = e.split_once(':').unwrap();
+                    targets.push((u32::from_str_radix(id, 16).unwrap(), u64::from_str_radix(d, 16).unwrap()));
+                }
+            }
+            let mut seen: Vec<String> = vec![];
+            for _ in 0..repeat {
+                let o = run_probe_once(idem, metrics, policy, &targets);
                 if !seen.contains(&o) {
                     seen.push(o);
                 }
@@ -354,7 +426,7 @@ fn gen_out(r: &mut Rng, k: usize, errs: &[String]) -> String {
 
 fn gen_case(r: &mut Rng, errs: &[String], thorough: bool) -> String {
     let max = r.below(5) as usize;
-    let interval = if thorough && r.chance(1, 12) { r.range(6, 20) } else { *r.pick(&[1u64, 1, 2, 2, 3, 5]) };
+    let interval = if thorough && r.chance(1, 12) { r.range(6, 20) } else { *r.pick(&[0u64, 1, 1, 1, 2, 2, 2, 3, 5]) };
     let nf = match r.below(10) {
         0 => r.below(3) as usize,
         1..=3 => r.below(6) as usize,
@@ -379,6 +451,39 @@ fn gen_case(r: &mut Rng, errs: &[String], thorough: bool) -> String {
     }
     let fl = if fs.is_empty() { "-".to_string() } else { fs.join(",") };
     format!("X {} {} {}", hex_u(max as u128), hex_u(interval as u128), fl)
+}
+
+fn gen_probe_case(r: &mut Rng) -> String {
+    let idem = !r.chance(2, 5);
+    let metrics = !r.chance(1, 7);
+    let interval = *r.pick(&[0u64, 1, 1, 2, 2, 3, 5]);
+    let policy = if r.chance(1, 7) { "-".to_string() } else { format!("{}:{}", hex_u(r.below(5) as u128), hex_u(interval as u128)) };
+    let n = match r.below(8) { 0 => 0, 1 => 1, _ => r.range(2, 8) } as usize;
+    let mut ids: Vec<u32> = (1..=n as u32).collect();
+    if r.bool() {
+        r.shuffle(&mut ids);
+    }
+    let style = r.below(4);
+    let iv = interval.max(1);
+    let tg: Vec<String> = ids
+        .iter()
+        .map(|id| {
+            let d = match style {
+                0 => iv * r.below(4),
+                1 => r.below(3),
+                2 => iv,
+                _ => match r.below(5) { 0 => 0, 1 => iv * r.below(3), _ => r.below(9) },
+            };
+            format!("{}:{}", hex_u(*id as u128), hex_u(d as u128))
+        })
+        .collect();
+    format!(
+        "P {} {} {} {}",
+        idem as u8,
+        metrics as u8,
+        policy,
+        if tg.is_empty() { "-".to_string() } else { tg.join(",") }
+    )
 }
 
 fn main() {
@@ -430,9 +535,38 @@ fn main() {
             }
         }
     }
+    // probe plans, exhaustive small part: every gate configuration x every plan of <= 3 targets
+    // with delays in {0,1,2}
+    let mut policies: Vec<String> = vec!["-".into()];
+    for max in 0..=2u32 {
+        for iv in [1u32, 2] {
+            policies.push(format!("{:x}:{:x}", max, iv));
+        }
+    }
+    let pmax = if thorough { 4 } else { 3 };
+    for n in 0..=pmax {
+        for code in 0..3usize.pow(n as u32) {
+            let mut c = code;
+            let mut tg = vec![];
+            for k in 0..n {
+                tg.push(format!("{:x}:{:x}", k + 1, c % 3));
+                c /= 3;
+            }
+            let tg = if tg.is_empty() { "-".to_string() } else { tg.join(",") };
+            for idem in [0, 1] {
+                for metrics in [0, 1] {
+                    for pol in &policies {
+                        let case = format!("P {} {} {} {}", idem, metrics, pol, tg);
+                        let o = run_case(&case, repeat);
+                        out.case(&case, &o);
+                    }
+                }
+            }
+        }
+    }
     let mut r = Rng::new(a.seed);
     for _ in 0..a.n {
-        let case = gen_case(&mut r, &errs, thorough);
+        let case = if r.chance(1, 4) { gen_probe_case(&mut r) } else { gen_case(&mut r, &errs, thorough) };
         let o = run_case(&case, repeat);
         out.case(&case, &o);
     }
